@@ -199,6 +199,66 @@ CORPUS = [
                    {"op": "del", "via": "f", "key": "domainancillary0"},
                    {"op": "del", "via": "d", "key": "dimensioncoordinate0"},
                    {"op": "del", "via": "core", "key": "nope0"}]),
+    # a rejected insertion under a NEW explicit key must leave no trace of the key
+    # (field and domain view: membership, look-up, len, keys)
+    ("fresh-key-rejected", [_ax(5),
+                            _arr("auxiliary_coordinate", [7], ["domainaxis0"], key="auxiliarycoordinate31"),
+                            _arr("cell_measure", [5], ["nope0"], key="cellmeasure22"),
+                            _arr("field_ancillary", [5], ["domainaxis0"], key="fieldancillary40", via="d"),
+                            {"op": "set", "via": "f", "c": {"t": "domain_axis", "size": 3}, "key": "domainaxis33",
+                             "axes": ["domainaxis0"]},
+                            {"op": "set", "via": "d", "c": {"t": "cell_method", "axes": ["domainaxis0"]},
+                             "key": "cellmethod21", "axes": None},
+                            _arr("auxiliary_coordinate", [5], ["domainaxis0"], key="auxiliarycoordinate31"),
+                            {"op": "copy"}]),
+    # a coordinate / domain ancillary named by two or three coordinate references: every one is cleaned
+    ("ref-clean-shared", [_ax(5), _arr("dimension_coordinate", [5], ["domainaxis0"]),
+                          _arr("auxiliary_coordinate", [5], ["domainaxis0"]),
+                          _arr("domain_ancillary", [5], ["domainaxis0"]),
+                          {"op": "set", "via": "f", "c": {"t": "coordinate_reference",
+                                                           "coords": ["auxiliarycoordinate0", "dimensioncoordinate0"],
+                                                           "ancs": {"a": "domainancillary0"}}, "key": None, "axes": None},
+                          {"op": "set", "via": "f", "c": {"t": "coordinate_reference",
+                                                           "coords": ["dimensioncoordinate0"],
+                                                           "ancs": {"a": "domainancillary0", "b": None}}, "key": None, "axes": None},
+                          {"op": "set", "via": "f", "c": {"t": "coordinate_reference",
+                                                           "coords": ["auxiliarycoordinate0", "dimensioncoordinate0"],
+                                                           "ancs": {"orog": "domainancillary0"}}, "key": None, "axes": None},
+                          {"op": "del", "via": "f", "key": "dimensioncoordinate0"},
+                          {"op": "del", "via": "d", "key": "domainancillary0"},
+                          {"op": "del", "via": "core", "key": "auxiliarycoordinate0"}]),
+    # through the domain view: delete / resize an axis that only a field ancillary (or a cell method) uses
+    ("domain-resize-fieldanc", [_ax(5), _ax(3), _arr("field_ancillary", [5], ["domainaxis0"]),
+                                {"op": "set", "via": "d", "c": {"t": "domain_axis", "size": 6}, "key": "domainaxis0", "axes": None},
+                                {"op": "del", "via": "d", "key": "domainaxis0"},
+                                {"op": "set", "via": "d", "c": {"t": "domain_axis", "size": 6}, "key": "domainaxis1", "axes": None},
+                                {"op": "set", "via": "f", "c": {"t": "cell_method", "axes": ["domainaxis1"]}, "key": None, "axes": None},
+                                {"op": "del", "via": "d", "key": "domainaxis1"},
+                                {"op": "set", "via": "d", "c": {"t": "domain_axis", "size": 6}, "key": "domainaxis1", "axes": None}]),
+    # constructs=True: a construct without recorded axes stops the loop part-way (in place)
+    ("constructs-loop-stops", [_ax(5), _ax(1), _ax(3),
+                               {"op": "set_data", "shape": [5, 3], "axes": ["domainaxis0", "domainaxis2"]},
+                               _arr("auxiliary_coordinate", [3, 5], ["domainaxis2", "domainaxis0"]),
+                               _arr("cell_measure", [5, 3], None),
+                               _arr("field_ancillary", [5, 3], ["domainaxis0", "domainaxis2"]),
+                               {"op": "insert_dimension", "axis": "domainaxis1", "position": 1,
+                                "constructs": True, "inplace": True},
+                               {"op": "transpose", "axes": [2, 0, 1], "constructs": True, "inplace": True},
+                               {"op": "transpose", "axes": None, "constructs": True, "inplace": False}]),
+    # an axis spanned twice by the data: subspace with one / two sizes, transpose(constructs=True)
+    ("axis-spanned-twice", [_ax(3), _ax(2),
+                            {"op": "set_data", "shape": [3, 3, 2], "axes": ["domainaxis0", "domainaxis0", "domainaxis1"]},
+                            _arr("auxiliary_coordinate", [3, 2], ["domainaxis0", "domainaxis1"]),
+                            {"op": "subspace", "idx": [["s", 0, 2, None], ["s", 0, 2, None], ["s", None, None, None]]},
+                            {"op": "subspace", "idx": [["s", 0, 2, None], ["s", 0, 1, None], ["s", None, None, None]]},
+                            {"op": "transpose", "axes": [2, 1, 0], "constructs": True, "inplace": True}]),
+    # convert of a construct without axes / without data
+    ("convert-no-axes", [_ax(3), _arr("dimension_coordinate", [3], ["domainaxis0"]),
+                         _arr("auxiliary_coordinate", [3], None),
+                         {"op": "convert", "key": "auxiliarycoordinate0", "full_domain": True},
+                         {"op": "del_data_axes", "via": "f", "key": "dimensioncoordinate0"},
+                         {"op": "convert", "key": "auxiliarycoordinate0", "full_domain": False},
+                         {"op": "convert", "key": "auxiliarycoordinate0", "full_domain": True}]),
     # two coordinate references naming the same domain ancillary, then convert(full_domain):
     # the ancillary is set twice under one key (a model slip found by the thorough tier)
     ("convert-shared-ancillary", [_ax(3), _ax(2), _arr("dimension_coordinate", [3], ["domainaxis0"]),
@@ -297,9 +357,17 @@ def run(chk, model_ok):
     nsteps = 0
     outcomes = {}
     opkinds = {}
+    situations = {}
     for c, steps in done:
         nsteps += len(steps)
         for s in steps:
+            for tag in s.get("sit", ()):
+                tag = tag + (":completed" if s["out"] == "ok" else ":rejected")
+                situations[tag] = situations.get(tag, 0) + 1
+            if s["op"]["op"] in ("transpose", "insert_dimension") and s["op"].get("constructs"):
+                tag = "constructs=True:" + ("completed" if s["out"] == "ok" else
+                                            "rejected-state-changed" if s["state"] != "same" else "rejected")
+                situations[tag] = situations.get(tag, 0) + 1
             key = s["op"]["op"] + ("/" + s["op"]["via"] if s["op"].get("via") in ("d", "core") else "")
             opkinds[key] = opkinds.get(key, 0) + 1
             o = "ok" if s["out"] == "ok" else "rejected:" + s["out"]
@@ -370,6 +438,7 @@ def run(chk, model_ok):
         "history_lengths": lengths,
         "operations": dict(sorted(opkinds.items())),
         "outcomes": dict(sorted(outcomes.items())),
+        "situations": dict(sorted(situations.items())),
         "exhaustive": False,
         "model_scope": cut_sample,
         "historical_refutations": "C02/Refuted.v: witnesses against the code as it stood at the pinned commit "
@@ -381,7 +450,13 @@ def run(chk, model_ok):
         "the abstract state is what the public API shows: constructs per type, construct_types(), data_axes(), shapes, "
         "bounds, coordinate-reference and cell-method contents, the field's data shape and data axes (Model.cstate)",
         "inserted coordinate references and cell methods are the caller's data: the container is required not to leave a "
-        "name dangling by its own action (deletion), not to validate what the caller inserts",
+        "name dangling by its own action (deletion, convert), not to validate what the caller inserts; generated references "
+        "name coordinate constructs as coordinates and domain ancillaries as terms (C02_untyped_reference_refuted otherwise)",
+        "a loop over the metadata constructs (constructs=True) that is left by an exception has dealt with an "
+        "order-dependent subset of the constructs (python set order): the model takes the subset from the observed state "
+        "and is proved for every subset",
+        "dictionaries and lists returned by construct_types(), data_axes(), todict(), get_data_axes() are overwritten "
+        "after every read, so a returned alias of the container's state would corrupt the next observation",
         "Constructs.replace() is documented as unchecked and is not an operation of the model; constructs fetched by "
         "reference and then mutated directly (f.domain_axis(k).set_size(9)) are outside the listed API",
         "index semantics of f[...] are taken from numpy (the size each index selects); property C03 covers them",
